@@ -67,6 +67,8 @@ def gen_cases(ctx):
                 c = coef_for_exp(rng, k); f = coef_for_exp(rng, fk)
                 if cabs(c) * cabs(f) > 25: f = coef_for_exp(rng, "tiny")
                 mk("exp_factor", n, {"ops": [], "coef": c}, factor=f)
+        for re in (-30.0, -22.0, -14.0, 25.0):          # e^c far from 1: the scalar must still be e^c to full relative precision
+            mk("exp", n, {"ops": [], "coef": [float2bits(re), float2bits(rng.uniform(-1.5, 1.5))]})
         for c in (0.7, -1.3, 2.5):
             mk("exp_factor", n, {"ops": [], "coef": [float2bits(c), float2bits(0.0)]}, factor=[float2bits(0.0), float2bits(rng.uniform(-2, 2))])
             mk("neg_i_dt", n, {"ops": [], "coef": [float2bits(c), float2bits(0.0)]}, dt=float2bits(rng.choice([0.3, -1.1, 2.0])))
